@@ -177,10 +177,19 @@ def run(rec):
     rec.parallel(_work, items)
     # termination of fixed-step runs: number of steps
     rec.parallel(_steps, [("euler", "grid"), ("tauleap", "graph"), ("euler", "graph"), ("tauleap", "grid")])
+    # clean slate for the stochastic set-up path too: a second set-up (initial-state processing included) must not read
+    # process-lifetime storage written during an earlier simulation, whatever kind that one was
+    rec.parallel(_stale, [("gillespie", ("grid", 2, 1, 1, 0), "gillespie", ("grid", 2, 1, 1, 0), "auto"), ("tauleap", ("graph", "pair"), "gillespie", ("grid", 2, 1, 1, 1), "redist"),
+                          ("euler", ("grid", 2, 1, 1, 0), "tauleap", ("graph", "pair"), "auto")])
     from . import C14
     C14.gsd_progress(rec)
     from . import C10_py
     C10_py.run(rec)
+
+
+def _stale(rec, item):
+    from .C08 import no_stale_state
+    no_stale_state(rec, item)
 
 
 def _steps(rec, item):
